@@ -582,26 +582,51 @@ func checkMtree(c *Ctx, r *Report, pa *provAnalysis) {
 				default:
 					return
 				}
-				f := constOrEmpty(x.Call.Args[first])
-				if !strings.Contains(f, "time=") && !strings.Contains(f, "type=") && !strings.Contains(f, "digest=") {
-					return
+				// one format with its arguments - or, when the format is chosen
+				// per entry kind first, the formats and the argument lists that
+				// arrive together (the phis of one join, edge by edge)
+				type variant struct {
+					format string
+					elems  []ssa.Value
 				}
-				n++
-				ms := verbRe.FindAllStringSubmatch(f, -1)
-				elems := variadicOrdered(x.Call.Args[first+1])
-				construct := fmt.Sprintf("archlinux mtree line format#%d", n)
-				if len(ms) != len(elems) {
-					r.Fail("F8", construct, c.instrPos(x), fmt.Sprintf("%d verbs but %d arguments", len(ms), len(elems)))
-					return
+				var variants []variant
+				if f := constOrEmpty(x.Call.Args[first]); f != "" {
+					variants = append(variants, variant{f, variadicOrdered(x.Call.Args[first+1])})
+				} else if fp, isPhi := x.Call.Args[first].(*ssa.Phi); isPhi {
+					ap, isAP := x.Call.Args[first+1].(*ssa.Phi)
+					if !isAP || ap.Block() != fp.Block() {
+						return
+					}
+					for i, fe := range fp.Edges {
+						seqs := sliceSequences(ap.Edges[i], 0)
+						if constOrEmpty(fe) == "" || len(seqs) != 1 {
+							return
+						}
+						variants = append(variants, variant{constOrEmpty(fe), seqs[0]})
+					}
 				}
-				for i, m := range ms {
-					field := fieldOf(elems[i])
-					key := m[1]
-					if _, known := want[key]; !known {
+				for _, vr := range variants {
+					f := vr.format
+					if !strings.Contains(f, "time=") && !strings.Contains(f, "type=") && !strings.Contains(f, "digest=") {
 						continue
 					}
-					bound[key] = true
-					r.Check(field == want[key], "F8", fmt.Sprintf("%s: key %q", construct, key), c.instrPos(x), fmt.Sprintf("bound to field %q, expected %q", field, want[key]))
+					n++
+					ms := verbRe.FindAllStringSubmatch(f, -1)
+					elems := vr.elems
+					construct := fmt.Sprintf("archlinux mtree line format#%d", n)
+					if len(ms) != len(elems) {
+						r.Fail("F8", construct, c.instrPos(x), fmt.Sprintf("%d verbs but %d arguments", len(ms), len(elems)))
+						continue
+					}
+					for i, m := range ms {
+						field := fieldOf(elems[i])
+						key := m[1]
+						if _, known := want[key]; !known {
+							continue
+						}
+						bound[key] = true
+						r.Check(field == want[key], "F8", fmt.Sprintf("%s: key %q", construct, key), c.instrPos(x), fmt.Sprintf("bound to field %q, expected %q", field, want[key]))
+					}
 				}
 			}
 		})
